@@ -151,6 +151,11 @@ def cfg_of(scn):
 def explore_and_validate(chk, pid, scns, n_pct, dfs_limit, bound=2, label=""):
     jobs = [(s, chk.seed * 977 + i, n_pct, dfs_limit, bound) for i, s in enumerate(scns)]
     results = pmap(h_channel.explore_scenario, jobs)
+    return judge_results(chk, pid, results, label)
+
+
+def judge_results(chk, pid, results, label=""):
+    """results: what h_channel.explore_scenario / explore_around return; TLC judges the observable traces"""
     traces, meta = [], {}
     runs = 0
     import os
